@@ -532,7 +532,7 @@ def run(ctx):
     n, depth = (700, 3) if quick else (12000, 4)
     grammar_stream(n, depth)
     # the same generator with every annotation wrapped in Annotated / NewType / TypeAliasType
-    for mode in (True, "newtype", "typealias"):
+    for mode in S.WRAP_MODES:
         with ctx.wrapped(mode):
             grammar_stream(120 if quick else 2000, depth)
     ctx.assumptions += [
